@@ -11,7 +11,13 @@ T2:     (a) pascal_case / snake_case / isupper of the real utils on an exhaustiv
         (c) lineno / token_col_start / indent of every definition and reference as recorded by
             the real parser against the positions known to the printer (model + property);
         (d) single-violation invalid schemas at random lines, also inside imported files:
-            cited file and line."""
+            cited file and line.
+   Input classes added in round 2: several one-line statements on ONE physical line
+   (`const W = 4; const H = 8`, `type Row = uint8[4]; type Cell = uint8`, fields, enum members;
+   with `;`, with blanks only), in the perturbed and the position streams; string constants with
+   escape sequences (backslash-n, -t, -r, quotes) followed by later definitions, diagnostics
+   and mutants; a boundary catalogue of warning COUNTS (255, 256, 257, 512; thorough: more)
+   for the `-c` exit status, which is a process status (8 bits)."""
 from __future__ import annotations
 
 import itertools
@@ -22,6 +28,7 @@ from typing import Any, Dict, List, Optional, Tuple
 
 import cli_gen as cg
 import cliside as cs
+import lexstage
 import pyside
 from vlib import Broken, Check, cnat, run_workers
 
@@ -35,17 +42,18 @@ def lint_schema(ck: Check, i: int) -> Tuple[cg.Schema, str]:
     if k == 0:
         p, tag = cg.Params(n_imports=1 + (i // 4) % 2, nested_import=((i // 8) % 2 == 1), perturb=0.0, perturb_import=0.5, indent_noise=0.0, enum_no_zero=0.0), "conforming"
     elif k == 1:
-        p, tag = cg.Params(n_imports=1, perturb=0.4, perturb_import=0.3, enum_no_zero=0.4), "perturbed"
+        p, tag = cg.Params(n_imports=1, perturb=0.4, perturb_import=0.3, enum_no_zero=0.4, same_line=0.35), "perturbed"
     elif k == 2:
-        p, tag = cg.Params(n_imports=0, perturb=0.25, indent_noise=0.25, enum_no_zero=0.2), "perturbed+indent"
+        p, tag = cg.Params(n_imports=0, perturb=0.25, indent_noise=0.25, enum_no_zero=0.2, same_line=0.2), "perturbed+indent"
     else:
-        p, tag = cg.Params(n_imports=2, nested_import=True, perturb=0.15, perturb_import=0.6, enum_no_zero=0.1), "perturbed-imports"
+        p, tag = cg.Params(n_imports=2, nested_import=True, perturb=0.15, perturb_import=0.6, enum_no_zero=0.1, same_line=0.15), "perturbed-imports"
     return cg.Gen(rng, p).schema(), f"{tag}#{i}"
 
 
 def pos_schema(ck: Check, i: int, line1: bool) -> Tuple[cg.Schema, str]:
     rng = random.Random(f"{ck.prop}:{ck.seed}:pos:{i}:{line1}")
     p = cg.Params(n_imports=i % 3, nested_import=(i % 3 == 2), perturb=0.1, indent_noise=0.2, comments=0.4,
+                  same_line=(0.3 if i % 2 else 0.0),
                   blanks=0.4, line1_def=line1, dup_simple_names=(i % 2 == 0))
     return cg.Gen(rng, p).schema(), f"{'line1' if line1 else 'pos'}#{i}"
 
@@ -107,6 +115,12 @@ def run(ck: Check) -> None:
             lint_cases.append((cg.Schema.from_json(j["schema"]), "corpus:" + os.path.basename(j["_path"])))
     for i in range(ck.n(24, 120)):
         lint_cases.append(lint_schema(ck, i))
+    # boundary catalogue of warning COUNTS (the exit status of -c is a process status: 8 bits)
+    CHECK_RUNS = [dict(lang=None, c=True, q=False, O=False), dict(lang=None, c=True, q=True, O=False)]
+    counts = [255, 256, 257, 512] + ([] if ck.quick else [1, 2, 127, 128, 254, 511, 513, 768, 1024])
+    warn_first = len(lint_cases)
+    for n in counts:
+        lint_cases.append((cg.warn_schema(random.Random(f"{ck.prop}:{ck.seed}:warn:{n}"), n), f"warnings={n}"))
     LINT_RUNS = [dict(lang=None, c=True, q=False, O=False), dict(lang=None, c=True, q=True, O=False),
                  dict(lang=None, c=True, q=False, O=True),
                  dict(lang="c", c=False, q=False, O=False), dict(lang="c", c=False, q=True, O=False),
@@ -120,7 +134,7 @@ def run(ck: Check) -> None:
     for si, (s, tag) in enumerate(lint_cases):
         cli_jobs.append({"op": "cli", "dir": os.path.join(ck.dir, f"l{si}"), "files": s.texts,
                          "runs": [{"args": argv(r, f"o{n}"), "out": f"o{n}" if r["lang"] else None}
-                                  for n, r in enumerate(LINT_RUNS)]})
+                                  for n, r in enumerate(CHECK_RUNS if si >= warn_first else LINT_RUNS)]})
     err_cases = []
     n_err = ck.n(48, 400)
     for i in range(n_err):
@@ -154,7 +168,7 @@ def run(ck: Check) -> None:
         exprs, metas = [], []
         outs: Dict[Tuple[Optional[str], bool], Dict[str, str]] = {}
         any_w = False
-        for r, o in zip(LINT_RUNS, res_["runs"]):
+        for r, o in zip(CHECK_RUNS if si >= warn_first else LINT_RUNS, res_["runs"]):
             if o.get("timeout"):
                 ck.broken(Broken("a CLI run did not finish within 10 minutes", f"{tag} {argv(r, 'out')}"))
                 continue
@@ -183,9 +197,16 @@ def run(ck: Check) -> None:
         for lang in ("c", "py"):
             a, b = outs.get((lang, False)), outs.get((lang, True))
             if a is not None and b is not None and (a != b or not a):
+                only_q, only_lint = [], []
+                for fn in sorted(set(a) | set(b)):
+                    la, lb = a.get(fn, "").splitlines(), b.get(fn, "").splitlines()
+                    only_q += [f"{fn}: {x}" for x in lb if x not in la][:4]
+                    only_lint += [f"{fn}: {x}" for x in la if x not in lb][:4]
                 ck.violation("generated output differs with and without -q (lint is not advisory)",
-                             {"schema": s.to_json(), "lang": lang, "tag": tag,
-                              "files_without_q": sorted(a), "files_with_q": sorted(b)})
+                             {"schema": s.to_json(), "lang": lang, "tag": tag, "argv_lint": [lang, ROOT, "out"],
+                              "argv_quiet": [lang, ROOT, "out", "-q"], "files_without_q": sorted(a),
+                              "files_with_q": sorted(b), "lines_only_with_q": only_q[:8],
+                              "lines_only_without_q": only_lint[:8]})
         stats["schemas_with_warnings" if any_w else "clean_schemas"] += 1
         if model and exprs:
             lint_shards.add(head, exprs, metas)
@@ -352,6 +373,9 @@ def run(ck: Check) -> None:
         "utils.py over all names of length <= 5 on {a,B,1,_} and random identifiers)",
         "the lexer facts behind C20_lineno (only t_newline writes lineno; no other rule, literal or ignored character "
         "can match a newline) come from a structural analysis of the regexes by the translator (re._parser)",
+        "lint(proto) does not modify the proto the renderers read (Linter.lint is pinned by digest; every compile run is "
+        "repeated with -q and the outputs are compared, also for several definitions on one line)",
         "lint applies to the definitions bound to the linted file only (imports are not linted): stated in the model, "
         "checked on every run",
     ]
+    lexstage.lex_stage(ck, "C20_lex.v", 1, 8, "C20")    # text level: the tokenizer (tools/lexstage.py)
